@@ -132,6 +132,24 @@ func pkgVarLit(g *model.GenPkg, name string) *ast.CompositeLit {
 	return nil
 }
 
+// fileDeclaring: the file of the package that declares the package-level variable.
+func fileDeclaring(g *model.GenPkg, v string) *ast.File {
+	for _, f := range g.Files {
+		for _, d := range f.Decls {
+			if gd, ok := d.(*ast.GenDecl); ok && gd.Tok == token.VAR {
+				for _, sp := range gd.Specs {
+					for _, n := range sp.(*ast.ValueSpec).Names {
+						if n.Name == v {
+							return f
+						}
+					}
+				}
+			}
+		}
+	}
+	return nil
+}
+
 // RunCoh decides COH.* (C19).
 func RunCoh(c *core.Ctx) {
 	checkPlainPbGo(c)
@@ -310,6 +328,124 @@ func RunCoh(c *core.Ctx) {
 			}
 			c.Check(len(missing) == 0, "COH.imports", g.Name+" "+v, fmt.Sprintf("the Go packages of all %d schema imports are the file's own or imported by it", n),
 				"schema imports whose Go package the generated file does not import (the dependency may be missing from the binary): "+strings.Join(missing, ", "), "", src)
+		}
+		// ---- COH.pubfwd: a file that publicly imports a file of another Go package re-exports what that file declares for
+		// its schema — message, enum and oneof-wrapper types, enum value constants, the E_name/E_value maps, extension
+		// descriptors, default-value constants — each as a forwarding declaration bound to the imported package's symbol
+		// (a symbol that is itself a forward, and the file descriptor variable, are not re-exported)
+		for v, fdp := range g.RawVars {
+			for _, pi := range fdp.PublicDependency {
+				if int(pi) >= len(fdp.Dependency) {
+					continue
+				}
+				dep := fdp.Dependency[pi]
+				gp := depGoPkg[src+"|"+dep]
+				if k := strings.Index(gp, ";"); k >= 0 {
+					gp = gp[:k]
+				}
+				if gp == "" || gp == g.Types.Path() || strings.Contains(schemaParam, "M"+dep+"=") {
+					continue
+				}
+				var q *model.GenPkg
+				depVar := ""
+				for _, o := range sources(c) {
+					if o.Source != src || o.Types.Path() != gp {
+						continue
+					}
+					for ov, ofd := range o.RawVars {
+						if ofd.GetName() == dep {
+							q, depVar = o, ov
+						}
+					}
+				}
+				if q == nil {
+					continue // the imported file was not generated in this run: nothing to compare with
+				}
+				dfile := fileDeclaring(q, depVar)
+				if dfile == nil {
+					continue
+				}
+				enumNames := map[string]bool{}
+				for _, e := range q.Enums {
+					enumNames[e.Named.Obj().Name()] = true
+				}
+				var missing []string
+				n := 0
+				want := func(name string) {
+					n++
+					qo := q.Types.Scope().Lookup(name)
+					fo := g.Types.Scope().Lookup(name)
+					if qo == nil {
+						return
+					}
+					ok := fo != nil && types.Identical(fo.Type(), qo.Type())
+					if ok {
+						switch qt := qo.(type) {
+						case *types.Const:
+							ft, isC := fo.(*types.Const)
+							ok = isC && ft.Val().ExactString() == qt.Val().ExactString()
+						case *types.TypeName:
+							_, ok = fo.(*types.TypeName)
+						case *types.Var:
+							_, ok = fo.(*types.Var)
+						}
+					}
+					if !ok {
+						missing = append(missing, name)
+					}
+				}
+				for _, d := range dfile.Decls {
+					gd, ok := d.(*ast.GenDecl)
+					if !ok {
+						continue
+					}
+					for _, sp := range gd.Specs {
+						switch t := sp.(type) {
+						case *ast.TypeSpec:
+							if !t.Name.IsExported() {
+								continue
+							}
+							if _, fwd := t.Type.(*ast.SelectorExpr); fwd {
+								continue
+							}
+							switch q.Info.Defs[t.Name].Type().Underlying().(type) {
+							case *types.Struct, *types.Basic:
+								want(t.Name.Name)
+							}
+						case *ast.ValueSpec:
+							for i, nm := range t.Names {
+								if !nm.IsExported() {
+									continue
+								}
+								if i < len(t.Values) {
+									if _, fwd := t.Values[i].(*ast.SelectorExpr); fwd {
+										continue
+									}
+								}
+								o := q.Info.Defs[nm]
+								if o == nil {
+									continue
+								}
+								switch gd.Tok {
+								case token.CONST:
+									if nt, ok := o.Type().(*types.Named); (ok && nt.Obj().Pkg() == q.Types) || strings.HasPrefix(nm.Name, "Default_") {
+										want(nm.Name)
+									}
+								case token.VAR:
+									base := strings.TrimSuffix(strings.TrimSuffix(nm.Name, "_name"), "_value")
+									if base != nm.Name && enumNames[base] {
+										want(nm.Name)
+									} else if strings.HasSuffix(o.Type().String(), "protoimpl.ExtensionInfo") {
+										want(nm.Name)
+									}
+								}
+							}
+						}
+					}
+				}
+				c.Check(len(missing) == 0, "COH.pubfwd", g.Name+" "+v+" re-exports "+dep, fmt.Sprintf("all %d schema symbols of the publicly imported file are forwarded to %s", n, gp),
+					"symbols the publicly imported file declares for its schema that this file does not forward (code written against this file's package cannot name them): "+strings.Join(missing, ", "), "", src)
+			}
 		}
 		// ---- per file tables
 		for v, fdesc := range g.FileDescs {
